@@ -131,6 +131,7 @@ def run(tier, seed):
         "cofactor map on curve points outside the subgroup, cofactor-part points, small-order points, members, identity. "
         "Non-trivial = a finite point and a scalar other than 0,+-1; distinct by full event")
     core.run_models(ev, MC_RUNS(quick))
+    gen_ep2.BUDGET = gen_ep2.Budget(2 if quick else None)
     conf = core.Conformance("C11", ev, wd)
     cover = {}
 
